@@ -5,6 +5,7 @@ import Gk.DrvCron
 import Gk.DrvDisp
 import Gk.DrvPool
 import Gk.DrvSched
+import Gk.DrvLin
 open Gk
 
 /-- `gkdriver <family>`: reads trace lines on stdin, prints `L<n> DIFF …` / `L<n> MON …` lines and a
@@ -114,6 +115,21 @@ partial def loopSched (h : IO.FS.Stream) (s : DrvSched.S) (n hist nt bad : Nat) 
     for o in outs do IO.println s!"L{n + 1} {o}"
     loopSched h s' (n + 1) hist nt (bad + outs.length)
 
+partial def loopLin (h : IO.FS.Stream) (s : DrvLin.S) (n hist nt bad : Nat) : IO Unit := do
+  let line ← h.getLine
+  if line.isEmpty then
+    IO.println s!"SUMMARY family=lin lines={n} histories={hist} nontrivial={nt} ops={s.count} flagged={bad}"
+    return
+  let toks := Proto.tokens line
+  match toks with
+  | [] => loopLin h s (n + 1) hist nt bad
+  | ["end"] => loopLin h s (n + 1) (hist + 1) (nt + (if s.nontrivial then 1 else 0)) bad
+  | _ =>
+    let (req, resp) := Proto.splitArrow toks
+    let (s', outs) := DrvLin.stepLine s req resp
+    for o in outs do IO.println s!"L{n + 1} {o}"
+    loopLin h s' (n + 1) hist nt (bad + outs.length)
+
 def main (args : List String) : IO UInt32 := do
   let stdin ← IO.getStdin
   match args with
@@ -124,4 +140,5 @@ def main (args : List String) : IO UInt32 := do
   | ["disp"] => loopDisp stdin {} 0 0 0; return 0
   | ["pool"] => loopPool stdin {} 0 0 0 0; return 0
   | ["sched"] => loopSched stdin {} 0 0 0 0; return 0
+  | ["lin"] => loopLin stdin {} 0 0 0 0; return 0
   | _ => IO.eprintln "usage: gkdriver repo"; return 2
